@@ -7,6 +7,8 @@
 package vmm
 
 //@ mode bv
+// page-table entries are only ever reached through integer-made addresses
+//@ rawtype pageTableEntry
 
 // ---- ghost call log of the page-mapping primitive (C07) ------------------------
 // pageTables stands for the contents of page-table memory: what the mapping
@@ -105,7 +107,37 @@ package vmm
 //@   ensures empty2: err == nil && pteIdx(uintptr(page) << 12, 39) != 511 && old(firstMissing(uintptr(page) << 12)) <= 1 ==> forall(a, uintptr, a - (pte1(uintptr(page) << 12) << 9) < 4096 && a - pte2(uintptr(page) << 12) >= 8 ==> mem8(a) == 0)
 //@   ensures empty1: err == nil && pteIdx(uintptr(page) << 12, 39) != 511 && old(firstMissing(uintptr(page) << 12)) <= 0 ==> forall(a, uintptr, a - (pte0(uintptr(page) << 12) << 9) < 4096 && a - pte1(uintptr(page) << 12) >= 8 ==> mem8(a) == 0)
 //@   ensures errs: err != nil ==> vmmError(err)
+//@   ensures roundtrip: err == nil && pteIdx(uintptr(page) << 12, 39) != 511 && flags&FlagPresent != 0 && uintptr(flags)&ptePhysPageMask == 0 ==> mapped(uintptr(page) << 12) && (mem64(pte3(uintptr(page) << 12)) & 0x000ffffffffff000) >> 12 == uint64(frame)
+//@   ensures others: pteIdx(uintptr(page) << 12, 39) != 511 ==> forall(b, uintptr, pteIdx(b, 39) != 511 && (b >> 12) & 0xfffffffff != uintptr(page) & 0xfffffffff ==> (mapped(b) <==> old(mapped(b))) && (mapped(b) ==> mem64(pte3(b)) == old(mem64(pte3(b)))))
 //@   at return: use vmmOwnErrs(0)
+
+// Unmap: with the three upper levels present (and no huge page on the way) exactly the present
+// bit of the leaf entry is cleared and the page's TLB entry invalidated; otherwise nothing is
+// written and the error says why
+//@ pred hugeFirst(v uintptr) = presentE(mem64(pte0(v))) && (hugeE(mem64(pte0(v))) || (presentE(mem64(pte1(v))) && (hugeE(mem64(pte1(v))) || (presentE(mem64(pte2(v))) && hugeE(mem64(pte2(v)))))))
+//@ func Unmap(page mm.Page) (err *kernel.Error)
+//@   property C04
+//@   inline walk
+//@   modifies pageTables, mem, cpu.flushes, cpu.flushLog
+//@   ensures huge: old(hugeFirst(uintptr(page) << 12)) ==> err == errNoHugePageSupport && mem == old(mem) && cpu.flushes == old(cpu.flushes)
+//@   ensures invalid: !old(hugeFirst(uintptr(page) << 12)) && old(firstMissing(uintptr(page) << 12)) <= 2 ==> err == ErrInvalidMapping && mem == old(mem) && cpu.flushes == old(cpu.flushes)
+//@   ensures ok: !old(hugeFirst(uintptr(page) << 12)) && old(firstMissing(uintptr(page) << 12)) == 3 ==> err == nil && mem64(pte3(uintptr(page) << 12)) == old(mem64(pte3(uintptr(page) << 12))) &^ 1 && cpu.flushes == old(cpu.flushes) + 1 && cpu.flushLog[old(cpu.flushes)] == uintptr(page) << 12
+//@   ensures frame: forall(a, uintptr, a - pte3(uintptr(page) << 12) >= 8 ==> mem8(a) == old(mem8(a)))
+//@   ensures unmapped: err == nil ==> !mapped(uintptr(page) << 12)
+//@   ensures others: pteIdx(uintptr(page) << 12, 39) != 511 ==> forall(b, uintptr, pteIdx(b, 39) != 511 && (b >> 12) & 0xfffffffff != uintptr(page) & 0xfffffffff ==> (mapped(b) <==> old(mapped(b))) && (mapped(b) ==> mem64(pte3(b)) == old(mem64(pte3(b)))))
+
+// pteForAddress / Translate: the software's own read of the tables
+//@ func pteForAddress(virtAddr uintptr) (entry *pageTableEntry, err *kernel.Error)
+//@   property C04
+//@   inline walk
+//@   raw entry
+//@   ensures hit: mapped(virtAddr) ==> err == nil && addrof(entry) == pte3(virtAddr)
+//@   ensures miss: !mapped(virtAddr) ==> err == ErrInvalidMapping && isnil(entry)
+
+//@ func Translate(virtAddr uintptr) (phys uintptr, err *kernel.Error)
+//@   property C04
+//@   ensures hit: mapped(virtAddr) ==> err == nil && phys == uintptr(((mem64(pte3(virtAddr)) & 0x000ffffffffff000) >> 12) << 12) + (virtAddr & 0xfff)
+//@   ensures miss: !mapped(virtAddr) ==> err == ErrInvalidMapping && phys == 0
 
 //@ func MapRegion(frame mm.Frame, size uintptr, flags PageTableEntryFlag) (page mm.Page, err *kernel.Error)
 //@   property C07
